@@ -5,6 +5,7 @@ import (
 	"fmt"
 	"os"
 	"path/filepath"
+	"strings"
 	"testing"
 
 	"filippo.io/sunlight"
@@ -316,7 +317,19 @@ func checkTilePath(r *Run, rng *Rng) {
 	r.DistinctKey(fmt.Sprintf("path/L=%d/groups=%d/partial=%v", t.L, len(refTileIndexPath(t.N))/4, t.W != 256))
 	// backward: mutated strings
 	m := []byte(p)
-	switch rng.Intn(12) {
+	switch rng.Intn(14) {
+	case 12:
+		// another spelling of the level directory (tlog-tiles "entries", case,
+		// plural/singular, numeric aliases of the data/names levels)
+		alias := pickOne(rng, []string{"entries", "entry", "Data", "DATA", "Names", "name", "datas", "-1", "-2", "data/", "leaves", "e"})
+		rest := p[len("tile/"):]
+		if i := strings.Index(rest, "/"); i >= 0 {
+			rest = rest[i:]
+		}
+		m = []byte("tile/" + alias + rest)
+	case 13:
+		// another top-level directory
+		m = []byte(pickOne(rng, []string{"tiles/", "Tile/", "tile//", "/tile/", "./tile/", "tile\\"}) + p[len("tile/"):])
 	case 0:
 		m = append(m, '/')
 	case 1:
